@@ -14,6 +14,10 @@ pub struct Printer<'a> {
     /// allow the `0x` spelling for integer literals in call-argument position
     pub hex_in_args: bool,
     in_arg: bool,
+    /// explicit alias choices (0 = word, 1 = symbol) consumed in order; when
+    /// exhausted or absent the PRNG / canonical choice applies
+    pub alias_script: Option<Vec<u8>>,
+    pub alias_points: usize,
     pub out: String,
 }
 
@@ -27,6 +31,8 @@ impl<'a> Printer<'a> {
             vary_literals: false,
             hex_in_args: true,
             in_arg: false,
+            alias_script: None,
+            alias_points: 0,
             out: String::new(),
         }
     }
@@ -37,6 +43,8 @@ impl<'a> Printer<'a> {
             vary_literals: true,
             hex_in_args: true,
             in_arg: false,
+            alias_script: None,
+            alias_points: 0,
             out: String::new(),
         }
     }
@@ -292,9 +300,20 @@ impl<'a> Printer<'a> {
         self.out.push(')');
     }
 
+    fn pick_alias(&mut self) -> usize {
+        let k = self.alias_points;
+        self.alias_points += 1;
+        if let Some(s) = &self.alias_script {
+            if let Some(c) = s.get(k) {
+                return *c as usize;
+            }
+        }
+        self.pick(2)
+    }
+
     fn word_or_sym(&mut self, word: &'static str, sym: &'static str) {
         // a word alias needs whitespace on both sides, a symbolic one does not
-        if self.pick(2) == 0 {
+        if self.pick_alias() == 0 {
             self.ws1();
             self.out.push_str(word);
             self.ws1();
@@ -362,7 +381,7 @@ impl<'a> Printer<'a> {
         match e {
             Expr::Cmp(p, op) => self.cmp(p, op),
             Expr::Not(inner) => {
-                if self.pick(2) == 0 {
+                if self.pick_alias() == 0 {
                     self.out.push_str("not");
                     self.ws1();
                 } else {
